@@ -678,3 +678,82 @@ func H_C14_callback_rewrites_later_element() {
 	verifAssert(l.Count() == 4 && l.GetInt(0) == x && l.GetInt(1) == 1000 && l.GetInt(2) == 1001 && l.GetInt(3) == 1002, "the list holds what the callback wrote")
 	verifReach("end")
 }
+
+// AllX after a history: a homogeneous list born from a typed Go slice (or NewListOf / NewList), then ONE mutation
+// that brings in an element of another kind (Insert at the front, in the middle or at the end, Replace, Add, SetTF)
+// or removes the odd one again; AllX must describe the elements as they are now
+func H_C14_allx_after_mutations() {
+	x := nondetInt()
+	var l List
+	kind := nondetIntRange(0, 7)
+	switch kind {
+	case 0:
+		l = NewListFrom([]int{x, 2, 3})
+	case 1:
+		l = NewListFrom([]string{"a", "b", "c"})
+	case 2:
+		l = NewListFrom([]float64{1.5, 2.5, 3.5})
+	case 3:
+		l = NewListFrom([]bool{true, false, true})
+	case 4:
+		l = NewListFrom([]Object{NewObject(), NewObject(), NewObject()})
+	case 5:
+		l = NewListFrom([]List{NewList(), NewList(), NewList()})
+	case 6:
+		l = NewListOf(x, 3)
+	default:
+		l = NewList([]int{x, 2, 3}).GetList(0) // a typed slice converted while nested
+	}
+	var odd any = "odd"
+	if kind == 1 {
+		odd = 7
+	}
+	if nondetBool() {
+		odd = nil
+	}
+	check := func(when string) {
+		n := l.Count()
+		cnt := make([]int, 8)
+		for i := 0; i < n; i++ {
+			cnt[int(l.TypeOf(i))]++
+		}
+		ok := l.AllInts() == (cnt[TypeInt] == n) && l.AllStrings() == (cnt[TypeString] == n) &&
+			l.AllFloats() == (cnt[TypeFloat] == n) && l.AllBools() == (cnt[TypeBool] == n) &&
+			l.AllObjects() == (cnt[TypeObject] == n) && l.AllLists() == (cnt[TypeList] == n) &&
+			l.AllNumeric() == (cnt[TypeInt]+cnt[TypeFloat] == n)
+		verifAssert(ok, "AllX holds exactly when every element has kind X ("+when+")")
+		verifAssert(len(l.IntSlice()) == cnt[TypeInt] && len(l.StringSlice()) == cnt[TypeString], "the typed slices hold exactly the elements of their kind ("+when+")")
+	}
+	check("fresh")
+	at := 0
+	switch nondetIntRange(0, 6) {
+	case 0:
+		l.Insert(0, odd)
+	case 1:
+		l.Insert(1, odd)
+		at = 1
+	case 2:
+		l.Insert(3, odd)
+		at = 3
+	case 3:
+		l.Replace(2, odd)
+		at = 2
+	case 4:
+		l.Add(odd)
+		at = 3
+	case 5:
+		l.SetTF("#1", odd)
+		at = 1
+	default:
+		l.SetTF("#3", odd)
+		at = 3
+	}
+	check("after one mutation")
+	if nondetBool() {
+		l.Delete(at)
+	} else {
+		l.Replace(at, l.Get((at+1)%3))
+	}
+	check("after the odd element is gone again")
+	verifReach("end")
+}
